@@ -691,8 +691,9 @@ def analyse(steps, trailing_notes=()):
                     V.append(Violation("C02", "ack-lost", "packet %s reported ACK but its reliable bunch #%d on ch %d was never handed to the peer application" % (w["pid"], len(got), ch), w["step"]))
                 if any(x["flags"] & 2 for x in want):
                     V.append(Violation("C10", "lost", "reliable data of a closed channel %d never delivered" % ch, w["step"]))
-                if w["flags"] & 64:
-                    V.append(Violation("C03", "lost", "reliable partial group never delivered", w["step"]))
+                frag = [x for x in want[len(got):] if x["flags"] & 64]
+                if frag:
+                    V.append(Violation("C03", "lost", "reliable partial group never delivered", frag[0]["step"]))
     # ---------------- C03: an unreliable group whose packets were all accepted, on a channel already open at the receiver, with no
     # reliable group in its way, is delivered
     wrapped_any = any(s_.op.startswith("w") and s_.op != "wb" for s_ in steps)
